@@ -1105,3 +1105,173 @@ def run_index(case):
         p = subprocess.run([sys.executable, "-W", "ignore", "-c", code], input=json.dumps(keys), capture_output=True, text=True, timeout=50, env=env)
         others.append({"hashseed": seed, "slots": json.loads(p.stdout) if p.returncode == 0 and p.stdout.strip() else None, "err": p.stderr[-200:] if p.returncode else ""})
     return {"here": here, "others": others, "expected": [kidx(mk(k)) for k in keys]}
+
+
+# ------------------------------------------------------------------ glue: what workers get as CobaContext.cacher; sources copied to workers
+
+def capture_worker_cacher(context_cacher):
+    """what CobaMultiprocessor.filter hands to its workers as cacher for the given CobaContext.cacher (process pool replaced by a recorder)"""
+    import coba.multiprocessing as CM
+    from coba.context import CobaContext
+    got = {}
+
+    class FakePool:
+        def __init__(self, filt, *a, **k):
+            got["filter"] = filt
+
+        def filter(self, items):
+            return iter(())
+
+    class Ident:
+        def filter(self, item):
+            yield item
+    saved_pool, saved_cacher = CM.Multiprocessor, CobaContext._cacher
+    try:
+        CM.Multiprocessor = FakePool
+        CobaContext.cacher = context_cacher
+        list(CM.CobaMultiprocessor(Ident(), 2).filter([1]))
+    finally:
+        CM.Multiprocessor = saved_pool
+        CobaContext._cacher = saved_cacher
+    return getattr(got.get("filter"), "_cacher", None)
+
+
+def run_glue_wrap(case):
+    """for one kind of context cacher: is what the workers see a ConcurrentCacher around it, and do two workers that miss the
+    same key at the same time run the getter once, one after the other?"""
+    import time as realtime
+    import coba.context.cachers as M
+    kind = case["cacher"]
+    d = tempfile.mkdtemp(prefix="c19glue") if "Disk" in kind else None
+    shared = {}
+
+    class SharedMem(M.MemoryCacher):
+        """a user subclass whose storage really is shared between the workers"""
+        def __init__(self):
+            self._cache = shared
+
+    class UserDisk(M.DiskCacher):
+        pass
+
+    class UserNull(M.NullCacher):
+        pass
+    ctx = {"MemoryCacher": lambda: M.MemoryCacher(), "SharedMem": lambda: SharedMem(), "DiskCacher": lambda: M.DiskCacher(d),
+           "UserDisk": lambda: UserDisk(d), "NullCacher": lambda: M.NullCacher(), "UserNull": lambda: UserNull()}[kind]()
+    out = {"kind": kind, "caching": "Null" not in kind}
+    undo = patch_time(M, type("T", (), {"sleep": staticmethod(lambda s=0: realtime.sleep(0.001)),
+                                        "__getattr__": lambda self, nm: getattr(realtime, nm)})())
+    try:
+        try:
+            w = capture_worker_cacher(ctx)
+        except Exception as e:
+            out["capture_error"] = type(e).__name__
+            return out
+        out["worker_type"] = type(w).__name__
+        out["wrapped"] = isinstance(w, M.ConcurrentCacher) and getattr(w, "_cache", None) is ctx
+        mu = threading.Lock()
+        st = {"inside": 0, "max_inside": 0, "runs": 0}
+        bar = threading.Barrier(2)
+        res = [None, None]
+
+        def getter():
+            with mu:
+                st["inside"] += 1
+                st["runs"] += 1
+                st["max_inside"] = max(st["max_inside"], st["inside"])
+            realtime.sleep(0.03)
+            with mu:
+                st["inside"] -= 1
+            return ["line1", "line2"]
+
+        def worker(i):
+            try:
+                bar.wait(timeout=5)
+                with w.get_set("entry", getter) as v:
+                    res[i] = [x.strip() for x in v]
+            except Exception as e:
+                res[i] = "raised:" + type(e).__name__
+        ths = [threading.Thread(target=worker, args=(i,), daemon=True) for i in range(2)]
+        for t in ths:
+            t.start()
+        for t in ths:
+            t.join(timeout=15)
+        out.update(st)
+        out["alive"] = sum(t.is_alive() for t in ths)
+        out["values"] = res
+        if isinstance(w, M.ConcurrentCacher) and not out["alive"]:
+            out["array_nonzero"] = [[i, v] for i, v in enumerate(w._array) if v != 0][:4]
+    finally:
+        for name, val in undo:
+            setattr(M, name, val)
+        if d:
+            shutil.rmtree(d, ignore_errors=True)
+    return out
+
+
+class CountingCacher:
+    """a MemoryCacher-like cacher (picklable, module level) that counts every access made through it"""
+
+    def __init__(self, name):
+        self.name = name
+        self.store = {}
+        self.calls = {"in": 0, "get_set": 0, "rmv": 0}
+
+    def __contains__(self, key):
+        self.calls["in"] += 1
+        return key in self.store
+
+    def rmv(self, key):
+        self.calls["rmv"] += 1
+        self.store.pop(key, None)
+
+    def get_set(self, key, getter):
+        self.calls["get_set"] += 1
+        if key not in self.store:
+            v = getter() if callable(getter) else getter
+            self.store[key] = list(v)
+        return nullcontext(list(self.store[key]))
+
+
+def run_glue_source(case):
+    """an OpenmlSource that is used in the main process, then copied to a worker (pickle / deepcopy) where CobaContext.cacher is a
+    different object (the ConcurrentCacher ProcessFilter installs): every cache access of the copy must go through the worker's cacher"""
+    import copy
+    import pickle
+    import coba.context.cachers as M
+    from coba.context import CobaContext, NullLogger
+    from coba.environments.openml import OpenmlSource
+    data_id = 42693
+    main = CountingCacher("main")
+    old_cacher, old_store, old_logger = CobaContext.cacher, CobaContext.store, CobaContext.logger
+    out = {"copy": case["copy"], "first_read": bool(case.get("first_read", True)), "bad": case.get("bad")}
+    try:
+        CobaContext.logger = NullLogger()
+        CobaContext.store = {}
+        CobaContext.cacher = main
+        for k, v in openml_entries(data_id).items():
+            main.store[k] = list(v)
+        src = OpenmlSource(data_id=data_id)
+        if case.get("first_read", True):
+            out["rows_main"] = len(list(src.read()))
+        blob = pickle.dumps(src) if case["copy"] == "pickle" else None
+        # ---- in the worker: ProcessFilter.filter sets CobaContext.cacher to the shared ConcurrentCacher
+        winner = CountingCacher("worker")
+        for k, v in openml_entries(data_id, case.get("bad")).items():
+            winner.store[k] = list(v)
+        worker = M.ConcurrentCacher(winner)
+        CobaContext.cacher = worker
+        cp = pickle.loads(blob) if blob is not None else copy.deepcopy(src)
+        main_before = dict(main.calls)
+        try:
+            out["rows_worker"] = len(list(cp.read()))
+            out["outcome"] = "ok"
+        except Exception as e:
+            out["outcome"] = "raised:" + type(e).__name__
+        out["worker_calls"] = dict(winner.calls)
+        out["main_calls_during_worker_read"] = {k: main.calls[k] - main_before[k] for k in main.calls}
+        out["worker_keys_after"] = sorted(winner.store)
+        out["array_nonzero"] = [[i, v] for i, v in enumerate(worker._array) if v != 0][:4]
+        out["locks_nonzero"] = sorted(str(k[1]) for k, v in getattr(worker, "_locks", {}).items() if v != 0)
+    finally:
+        CobaContext.cacher, CobaContext.store, CobaContext.logger = old_cacher, old_store, old_logger
+    return out
